@@ -1,13 +1,34 @@
 //! Checks that do not use the shared replication simulation (C12 component level, C13, C14, C17).
 
-use crate::check::Replay;
+use crate::check::{self, Replay};
+use crate::fam_c17::C17;
 
-pub fn worker(family: &str, _prop: &str, _seed: u64, _start: u64, _stride: u64, _total: u64) {
-    eprintln!("harness error: unknown family {family}");
-    std::process::exit(2);
+pub fn worker(family: &str, prop: &str, seed: u64, start: u64, stride: u64, total: u64) {
+    match family {
+        "c17" => check::worker::<C17>(prop, seed, start, stride, total),
+        _ => {
+            eprintln!("harness error: unknown family {family}");
+            std::process::exit(2);
+        }
+    }
 }
 
 pub fn replay(r: &Replay) -> i32 {
-    eprintln!("harness error: unknown replay family {}", r.family);
-    2
+    match r.family.as_str() {
+        "c17" => check::replay::<C17>(r),
+        _ => {
+            eprintln!("harness error: unknown replay family {}", r.family);
+            2
+        }
+    }
+}
+
+pub fn check(prop: &str, tier: &str) -> i32 {
+    match prop {
+        "C17" => check::check::<C17>(prop, tier, "exploration", serde_json::Value::Null),
+        _ => {
+            eprintln!("harness error: no check for {prop}");
+            2
+        }
+    }
 }
